@@ -37,7 +37,8 @@ NameList == <<"A", "B", "Id", "C", "D", "E">>
 InnerW == <<"a", "a", "b", "a-b", "a_b", ":id">>
 LastW == <<"a", "b", "a-b", "a_b", ":id", "*rest", "", "">>
 VerbW == <<"GET", "GET", "POST", "Any">>
-DirW == <<"", "x", "y/x">>
+\* handler_path directories: equal base names ("x", "y/x") and base names equal only after identifier mangling
+DirW == <<"", "x", "y/x", "x-y", "x_y">>
 DepthW == <<1, 2, 2, 3, 3>>
 
 Opt(k) == [sort |-> (k % 2) = 1, snake |-> ((k \div 2) % 2) = 1, byMethod |-> ((k \div 4) % 2) = 1]
@@ -67,7 +68,12 @@ Fixed == <<
    MkCase(Opt(6), <<M("GET", <<"a">>, "A", "x"), M("POST", <<"a", "">>, "B", ""), M("POST", <<"a-b">>, "A", "x")>>),
    MkCase(Opt(2), <<M("GET", <<"a", "b">>, "A", ""), M("Any", <<"a", "b", ":id">>, "B", ""), M("GET", <<"a">>, "A", ""), M("POST", <<"a", "a_b">>, "A", "")>>),
    MkCase(Opt(3), <<M("GET", <<"a">>, "A", ""), M("GET", <<"a", "b">>, "B", ""), M("POST", <<"b">>, "A", "")>>),
-   MkCase(Opt(0), <<M("GET", <<"a">>, "A", ""), M("GET", <<"a", "b">>, "B", ""), M("POST", <<"b">>, "A", "")>>)
+   MkCase(Opt(0), <<M("GET", <<"a">>, "A", ""), M("GET", <<"a", "b">>, "B", ""), M("POST", <<"b">>, "A", "")>>),
+   \* handler-by-method: handler directories whose base names collide only after mangling ('-', '_', '.'), the SAME
+   \* handler function name in each: every route must run the handler of its own package
+   MkCase(Opt(4), <<M("GET", <<"a">>, "A", "x-y"), M("GET", <<"b">>, "A", "x_y")>>),
+   MkCase(Opt(5), <<M("GET", <<"a">>, "A", "x_y"), M("POST", <<"a">>, "A", "x-y"), M("GET", <<"a", "b">>, "A", "x.y")>>),
+   MkCase(Opt(6), <<M("GET", <<"a">>, "A", "y/x-y"), M("GET", <<"b">>, "A", "x_y"), M("GET", <<"a-b">>, "B", "x-y"), M("GET", <<"a_b">>, "B", "x")>>)
 >>
 
 \* ---- 2. every single-method declaration
@@ -78,7 +84,7 @@ PathsUpTo(d) == UNION {GenPaths(k) : k \in 1 .. d}
 SinglePaths == SetToSeq(PathsUpTo(SingleDepth))
 Singles == [i \in 1 .. Len(SinglePaths) * 3 |->
               LET p == SinglePaths[((i - 1) \div 3) + 1] v == DeclVerbs[((i - 1) % 3) + 1] IN
-              MkCase(Opt(i % 8), <<M(v, p, "A", DirW[(i % 3) + 1])>>)]
+              MkCase(Opt(i % 8), <<M(v, p, "A", DirW[(i % Len(DirW)) + 1])>>)]
 
 \* ---- 3. every ordered pair over a core of paths that share prefixes / collide after mangling
 PairPaths == <<<<"a">>, <<"a", "">>, <<"a", "b">>, <<"a-b">>, <<"a_b">>, <<"a-b", "a">>, <<"a_b", "a">>, <<":id">>, <<"a", ":id">>, <<"a", "*rest">>, <<"">>>>
